@@ -267,7 +267,7 @@ def cli_case(z, case):
             return a
     spec = dict(banner=case['banner'], kex=KEXVARIANTS[case['kexv']], key=['ssh-ed25519', 'rsa-sha2-512'], enc=['aes256-ctr'], mac=['hmac-sha2-256'],
                 hostkeys={b'ssh-ed25519': P.ed25519_blob(), b'rsa-sha2-512': P.rsa_blob(3072)}, gex=cb)
-    srv = P.new_ssh2_server(spec, stall_limit=4.0)
+    srv = P.new_ssh2_server(spec, stall_limit=4.0, segment=case.get('segment', 0))
     try:
         r = z.run(['-n', '--skip-rate-test', '-t', str(case.get('timeout', 2))] + (['-j'] if case.get('js') else []) + ['127.0.0.1:%d' % srv.port], timeout=150)
     finally:
@@ -415,6 +415,10 @@ def run(ctx):
         extra = rng.sample(fam, 40 if q else 600)
         for i, (st, S, ob) in enumerate(extra):
             cases.append({'kind': 'family', 'style': st, 'S': S, 'banner': rng.choice(OPENSSH_BANNERS if ob else OTHER_BANNERS), 'kexv': ['sha256', 'sha1', 'gex-first'][i % 3], 'js': (i % 4 == 3)})
+        # the same answers however TCP delivers them: every packet cut into 1-byte and 5-byte segments (a reader that takes a packet for complete before its padding
+        # has arrived misreads the next one); measured size and rating are those of whole-packet delivery, which the model and the oracle below state
+        for i, (st, S, ob) in enumerate([('strict', (1024, 2048, 4096), False), ('strict', (2048,), True), ('round_up', (3072,), False), ('openssh_fallback', (3072,), True)] + ([] if q else rng.sample(fam, 12))):
+            cases.append({'kind': 'family', 'style': st, 'S': S, 'banner': rng.choice(OPENSSH_BANNERS if ob else OTHER_BANNERS), 'kexv': 'sha256', 'js': (i % 2 == 1), 'segment': (1, 5)[i % 2], 'timeout': 3})
         # faulty servers: refuse / disconnect / garbage / stall always, and after some answers
         for kind in ('close', 'disconnect', 'garbage', 'stall', 'debug-disconnect', 'debug-ignore'):
             cases.append({'kind': 'fault', 'fault': {'seq': [], 'then': kind}, 'banner': OPENSSH_BANNERS[0], 'kexv': 'sha256' if kind == 'stall' else 'both', 'timeout': 1, 'js': False})
